@@ -42,6 +42,11 @@ ClsSep == L(<<cLB, cSEP, cRB>>, 0)
 ClsDot == L(<<cLB, cDOT, cRB>>, 0)     \* classes used to escape: one punctuation / meta character
 ClsStar == L(<<cLB, cSTAR, cRB>>, 0)
 
+(* class ranges around the separator: every ordered pair of bounds over + . / 0, plain and negated *)
+RB == <<43, 46, 47, 48>>
+ClsR(x, y, neg) == L(<<cLB>> \o (IF neg THEN <<cBANG>> ELSE <<>>) \o (IF x = y THEN <<x>> ELSE <<x, cDASH, y>>) \o <<cRB>>, 0)
+RngLex == [k \in 1..32 |-> LET p == (k - 1) \div 2 IN ClsR(RB[(p \div 4) + 1], RB[(p % 4) + 1], (k - 1) % 2 = 1)]
+
 Lexemes(fam) ==
   CASE fam = "core" ->
          <<P(cA), P(cB), P(cSEP), P(cQ), P(cSTAR), Tree, ClsA, Open, Comma, Close,
@@ -68,6 +73,8 @@ Lexemes(fam) ==
            P(1060), P(347), P(298), P(319), P(303), P(348), P(29481)>>
     [] fam = "flags" ->   \* flag placement: before, inside and after branches, next to classes
          <<P(cA), P(cUA), FlagI, FlagNI, Open, Comma, Close, ROpen, R12, ClsA>>
+    [] fam = "rng" ->   \* ranges whose bounds lie below, on and above the separator
+         RngLex \o <<P(cA), P(cSEP), P(cQ)>>
     [] fam = "deep" ->
          <<P(cA), P(cSEP), Open, Comma, Close, ROpen, R12, R01>>
 
@@ -77,6 +84,8 @@ Lexemes(fam) ==
 (* spell the same text are merged by bin/verify, which also numbers the cases.               *)
 Num(s) == CASE s = "0" -> 0 [] s = "1" -> 1 [] s = "2" -> 2 [] s = "3" -> 3 [] s = "4" -> 4
             [] s = "5" -> 5 [] s = "6" -> 6 [] s = "7" -> 7 [] s = "8" -> 8 [] s = "9" -> 9
+            [] s = "10" -> 10 [] s = "11" -> 11 [] s = "12" -> 12 [] s = "13" -> 13 [] s = "14" -> 14
+            [] s = "15" -> 15 [] s = "16" -> 16
 
 Family == IOEnv.FAMILY
 N      == Num(IOEnv.N)
@@ -105,5 +114,5 @@ Next ==
 
 
 
-Emit == stack = <<>> => PrintT(ToJson([t |-> "CASE", fam |-> Family, e |-> text]))
+Emit == stack = <<>> => PrintT(ToJson([t |-> "CASE", fam |-> Family, e |-> text, n |-> n]))
 =============================================================================
